@@ -68,7 +68,7 @@ Qed.
 
 Section Mass.
   Variable m : pomdp.
-  Hypothesis Hwf : wf_pomdp m.
+  Hypothesis Hwf : wf_pomdp1 m.
   Let S := nS (pm m).
 
   Lemma trow_sum : forall s a, (s < S)%nat -> (a < nA (pm m))%nat ->
